@@ -408,3 +408,69 @@ def run(ck, prog):
     _run_pre_progress(ck, prog)
     from sa import progress
     progress.run_rule(ck, prog, set(DIMENSION_FILES))
+
+
+# ------------------------------------------------------------------ the prior used by predict is the reported prior
+_run_pre_priorcall = run
+
+
+def predict_uses_reported_prior(ck, prog):
+    """'priors are class frequencies (or the user-supplied priors)' and the prediction maximises log prior + log-likelihood
+    'computed from those statistics': the prior term of the score comes from NBDistribution::prior(class) - the accessor
+    that reports class_priors - either directly or through a provided trait method that no distribution overrides. A
+    distribution-specific override (a cached log-prior filled before the user-priors branch) decouples the score from the
+    reported priors."""
+    rule, inst = "E2-provenance", "BaseNaiveBayes::predict scores with NBDistribution::prior (no overridden shortcut)"
+    try:
+        b = prog.one(NB + "$")
+    except AnchorError as e:
+        ck.violation(rule, inst, "BaseNaiveBayes::predict", "", expected="anchor exists", found=f"anchor vanished: {e}")
+        return
+    bodies = [b] + prog.closures_of.get(b.path, [])
+    for bd in list(bodies):
+        for bb, t in bd.calls():
+            f = t.get("f")
+            cal = prog.bodies.get((f or {}).get("resolved") or "") or prog.bodies.get((f or {}).get("path") or "")
+            if cal is not None and cal.path.startswith("naive_bayes::BaseNaiveBayes") and cal not in bodies:
+                bodies.append(cal)
+                bodies.extend(prog.closures_of.get(cal.path, []))
+    used = {}
+    for bd in bodies:
+        for bb, t in bd.calls():
+            f = t.get("f")
+            if f and f["path"].startswith("naive_bayes::NBDistribution::"):
+                used.setdefault(f["path"].split("::")[-1], bd.where(bb))
+    problems = []
+    extra = [m for m in used if m not in ("prior", "log_likelihood", "classes")]
+    for m in extra:
+        over = [x.path for x in prog.bodies.values() if x.impl_trait and x.impl_trait.startswith("naive_bayes::NBDistribution") and x.name == m]
+        default = prog.bodies.get(f"naive_bayes::NBDistribution::{m}")
+        uses_prior = default is not None and any(t.get("f") and t["f"]["path"].endswith("NBDistribution::prior") for _, t in default.calls())
+        if over:
+            problems.append(f"predict calls NBDistribution::{m}, which is overridden by {[o.split(' as ')[0][-60:] for o in over][:2]}")
+        elif "prior" not in used and not uses_prior:
+            problems.append(f"predict calls NBDistribution::{m} instead of prior()")
+    if "prior" not in used and not extra:
+        problems.append("the score contains no call of NBDistribution::prior")
+    site = used.get("prior") or f"{b.loc[0]}:{b.loc[1]}"
+    if problems:
+        ck.violation(rule, inst, b.path, site, expected="log prior = ln(prior(class)) from the reported class_priors", found="; ".join(problems))
+    else:
+        ck.ok(rule, inst, b.path, site, f"trait methods used by predict: {sorted(used)}")
+
+
+def run(ck, prog):
+    _run_pre_priorcall(ck, prog)
+    predict_uses_reported_prior(ck, prog)
+
+
+_run_pre_bin = run
+
+
+def run(ck, prog):
+    _run_pre_bin(ck, prog)
+    from props import C03
+    C03.binarize_every_cell(ck, prog)          # BernoulliNB binarises with the user's threshold in fit and predict
+
+
+EXPLANATION += (" The prior term of the score is NBDistribution::prior (no distribution-specific override of a shortcut); binarize_mut stores into every cell (no skip), as BernoulliNB binarises with the user's threshold.")
